@@ -54,10 +54,11 @@ Qed.
 (* GetReader yields at most what the input holds, however large Size claims to be *)
 Theorem section_bytes_bounded d st c : section_bytes d st = inl c -> (length c <= length st)%nat.
 Proof.
-  unfold section_bytes. destruct (d_size d =? 0); [intros [= <-]; cbn; lia|].
+  unfold section_bytes. destruct (d_size d <? 0); [discriminate|].
+  destruct (d_size d =? 0); [intros [= <-]; cbn; lia|].
   destruct (Z.ltb_spec (d_off d) 0) as [Ho|Ho]; [discriminate|].
   destruct (Z.leb_spec (Z.of_nat (length st)) (d_off d)) as [Hl|Hl]; [intros [= <-]; cbn; lia|].
-  intros [= <-]. rewrite length_nread. destruct (d_size d <? 0); lia.
+  intros [= <-]. rewrite length_nread. lia.
 Qed.
 
 Theorem obj_bytes_bounded d st : (length (obj_bytes d st) <= length st)%nat.
